@@ -23,6 +23,7 @@ SignerOf(m) ==
     [] m.t = "Send" -> m.from
     [] m.t = "Delegate" -> m.del
     [] m.t = "Exec" -> m.grantee
+    [] m.t \in {"Grant", "Revoke"} -> m.granter
     [] m.t = "UpdParams" -> m.authority
     [] m.t = "GovProp" -> m.proposer
     [] m.t = "Vote" -> m.voter
@@ -48,6 +49,14 @@ ApplyParams(st, mod, p) ==
     [] OTHER -> Fail(st)
 
 ------------------------------------------------------------------------------
+(* x/authz: generic authorisations granter -> grantee per message type.      *)
+(* st.grants = ["granter/grantee/type" -> 1]                                 *)
+GrantableTypes == {"Raise", "Decide", "Whitelist", "WReg", "WRec", "WBuy", "BReg", "BRec", "BBuy",
+                   "SCreate", "SClaim", "STopUp", "SRate", "SCancel", "Send"}
+GrantKey(granter, grantee, mt) == granter \o "/" \o grantee \o "/" \o mt
+MayExec(st, grantee, m) == SignerOf(m) = grantee \/ Has(st.grants, GrantKey(SignerOf(m), grantee, m.t))
+
+------------------------------------------------------------------------------
 (* stateless checks of one message, nested messages included (stage S1) *)
 RECURSIVE BasicOk(_, _)
 BasicOk(st, m) ==
@@ -66,6 +75,8 @@ BasicOk(st, m) ==
     [] m.t = "Send" -> m.amt > 0
     [] m.t = "Delegate" -> m.amt > 0
     [] m.t = "Exec" -> Len(m.msgs) > 0 /\ \A i \in DOMAIN m.msgs : BasicOk(st, m.msgs[i])
+    [] m.t = "Grant" -> m.granter # m.grantee /\ m.mt \in GrantableTypes
+    [] m.t = "Revoke" -> m.granter # m.grantee /\ m.mt # ""
     [] m.t = "UpdParams" -> ParamsValid(st, m.mod, m.p)
     [] m.t = "GovProp" -> \A i \in DOMAIN m.msgs : BasicOk(st, m.msgs[i])
     [] m.t = "Vote" -> TRUE
@@ -99,9 +110,14 @@ RunMsg(st, m) ==
     [] m.t = "SCancel" -> Cancel(st, m)
     [] m.t = "Send" -> Send(st, m.from, m.to, m.denom, m.amt)
     [] m.t = "Exec" ->
-         \* every nested message must be authorised by the grantee itself
-         IF \E i \in DOMAIN m.msgs : SignerOf(m.msgs[i]) # m.grantee THEN Fail(st)
+         \* every nested message must be authorised by the grantee itself or by a (generic, non-expiring) grant of
+         \* its signer to the grantee for exactly that message type; the nested message then runs AS its signer
+         IF \E i \in DOMAIN m.msgs : ~MayExec(st, m.grantee, m.msgs[i]) THEN Fail(st)
          ELSE LET r == RunMsgs(st, m.msgs, <<>>) IN IF r.ok THEN OkOut(r.st, [nested |-> Len(m.msgs)]) ELSE Fail(st)
+    [] m.t = "Grant" -> Ok([st EXCEPT !.grants = Upd(@, GrantKey(m.granter, m.grantee, m.mt), 1)])
+    [] m.t = "Revoke" ->
+         IF ~Has(st.grants, GrantKey(m.granter, m.grantee, m.mt)) THEN Fail(st)
+         ELSE Ok([st EXCEPT !.grants = Del(@, GrantKey(m.granter, m.grantee, m.mt))])
     [] m.t = "UpdParams" ->
          IF m.authority # "gov" THEN Fail(st) ELSE ApplyParams(st, m.mod, m.p)
     [] m.t = "GovProp" ->
